@@ -244,6 +244,46 @@ pub fn reject_case(c: &RejectCase, obs: &mut Obs) -> PResult {
     }
 }
 
+/// every finite strictly positive observation is accepted, including the top and bottom binades of the type
+#[derive(Clone, Debug, Serialize, Deserialize)]
+pub struct AcceptCase {
+    pub f32: bool,
+    pub x: X,
+    pub geometric: bool,
+}
+pub fn accept_case(c: &AcceptCase, obs: &mut Obs) -> PResult {
+    fn go<F: Fl>(c: &AcceptCase, obs: &mut Obs) -> PResult {
+        let x = F::from64(c.x.0);
+        if !(x > F::zero()) || !x.is_finite() {
+            return Ok(());
+        }
+        obs.eval();
+        let which = if c.geometric { "Geometric" } else { "Harmonic" };
+        let r = guard(|| {
+            if c.geometric {
+                let mut s = Geometric::<F>::new();
+                s.append(F::from64(2.0)).and_then(|_| s.append(x)).map(|_| s.sample_count())
+            } else {
+                let mut s = Harmonic::<F>::new();
+                s.append(F::from64(2.0)).and_then(|_| s.append(x)).map(|_| s.sample_count())
+            }
+        });
+        match r {
+            Ok(Ok(2)) => {}
+            other => return crate::engine::fail(format!("C05/{which}/rejects_positive_value"), format!("{which}::<{}>::append({x:?}) for a finite strictly positive value: {other:?}", F::NAME)),
+        }
+        let mag = if x.to64() > 1e30 { "huge" } else if x.to64() < 1e-30 { "tiny" } else { "ordinary" };
+        obs.class(&format!("accept/{which}/{mag}"));
+        obs.nontrivial(&("accept", F::IS32, c.geometric, c.x.0.to_bits()));
+        Ok(())
+    }
+    if c.f32 {
+        go::<f32>(c, obs)
+    } else {
+        go::<f64>(c, obs)
+    }
+}
+
 pub fn strategy(max_n: usize) -> impl Strategy<Value = Case> {
     (gen::positive_sample(max_n), gen::conf(), 0u8..3).prop_map(|(sample, conf, style)| Case { sample, conf, style })
 }
@@ -279,7 +319,23 @@ pub fn run(run: &mut Run) {
             }
         }
     }
-    for c in ["nontrivial/f32", "nontrivial/f64", "harmonic/straddle", "reject/Geometric/first", "reject/Geometric/middle", "reject/Geometric/last", "reject/Harmonic/first", "reject/Harmonic/middle", "reject/Harmonic/last", "shape/positive/spread0", "shape/positive/spread4"] {
+    // acceptance of every finite positive value: all binades of both types, at and next to the extremes
+    for f32_ in [false, true] {
+        let (emin, emax) = if f32_ { (-149, 127) } else { (-1074, 1023) };
+        for geometric in [true, false] {
+            for e in emin..=emax {
+                for m in [1.0, 1.5, 1.9999999] {
+                    let v = crate::fl::pow2(e) * m;
+                    let v = if f32_ { (v as f32) as f64 } else { v };
+                    run.case("accept", &AcceptCase { f32: f32_, x: X(v), geometric }, accept_case);
+                }
+            }
+            for v in [f64::MAX, f64::MIN_POSITIVE, 5e-324, 4.5e307, f32::MAX as f64, f32::MIN_POSITIVE as f64, 8.6e37] {
+                run.case("accept", &AcceptCase { f32: f32_, x: X(v), geometric }, accept_case);
+            }
+        }
+    }
+    for c in ["accept/Geometric/huge", "accept/Harmonic/huge", "accept/Harmonic/tiny", "nontrivial/f32", "nontrivial/f64", "harmonic/straddle", "reject/Geometric/first", "reject/Geometric/middle", "reject/Geometric/last", "reject/Harmonic/first", "reject/Harmonic/middle", "reject/Harmonic/last", "shape/positive/spread0", "shape/positive/spread4"] {
         run.require_class(c);
     }
     run.assumptions.push("the standard error referred to is the crate's documented Arithmetic::sample_sem in the transformed space (it divides by sqrt(n-1)); it is taken from Arithmetic, not recomputed".into());
@@ -291,6 +347,7 @@ pub fn replay(sub: &str, v: &Value, obs: &mut Obs) -> Option<PResult> {
     Some(match sub {
         "positive" => positive_case(&de(v), obs),
         "reject" => reject_case(&de(v), obs),
+        "accept" => accept_case(&de(v), obs),
         _ => return None,
     })
 }
